@@ -127,6 +127,8 @@ type gen struct {
 	w  *world
 	r  *vhlib.Rand
 	tr *vhlib.Trace
+	// seeds of the sectors appended by RHP2 writes so far (candidates for an accepted update)
+	appended []uint64
 }
 
 func (g *gen) live() []int {
@@ -169,7 +171,12 @@ func (g *gen) payArgs() []string {
 			}
 		}
 	}
-	return []string{"by", "c", "c", fmt.Sprint(c), "a", fmt.Sprint(a)}
+	// one in twelve payments by contract is skewed: the host's payouts gain less than the renter's lose
+	sk := "0"
+	if g.r.Chance(1, 12) {
+		sk = vhlib.Pick(g.r, "v1", "m1", "v"+fmt.Sprint(2+g.r.Uint64()%1000000), "m"+fmt.Sprint(2+g.r.Uint64()%1000000), "v"+cs(sc))
+	}
+	return []string{"by", "c", "c", fmt.Sprint(c), "a", fmt.Sprint(a), "sk", sk}
 }
 
 func (g *gen) over(pay []string) string {
@@ -251,7 +258,6 @@ func (g *gen) stepV1() {
 		c := g.pickContract()
 		n := g.sectors(c)
 		var acts []string
-		hasUpdate := false
 		for i, k := 0, 1+r.Intn(2); i < k; i++ {
 			switch y := r.Intn(10); {
 			case y < 5 && n < 5:
@@ -261,24 +267,34 @@ func (g *gen) stepV1() {
 			case y < 7 && n > 0:
 				acts = append(acts, "t1")
 				n--
-			case y < 9 && n > 1:
+			case y < 8 && n > 1:
 				acts = append(acts, fmt.Sprintf("s%d:%d", r.Intn(n), r.Intn(n)))
+			case n > 0 && len(g.appended) > 0 && r.Chance(1, 2):
+				// patch a sector into one the host (probably) stores already: the only way an RHP2 update
+				// is accepted on the current tree; a fresh seed gives the refused variant
+				seed := g.appended[r.Intn(len(g.appended))]
+				if r.Chance(1, 4) {
+					seed = 900000 + uint64(r.Intn(1000))
+				}
+				acts = append(acts, fmt.Sprintf("U%d:%d", r.Intn(n), seed))
 			case n > 0:
 				acts = append(acts, fmt.Sprintf("u%d:%d:%d:%d", r.Intn(n), 64*r.Intn(100), 64*(1+r.Intn(4)), r.Intn(1000)))
-				hasUpdate = true
 			}
 		}
 		if len(acts) == 0 {
 			w.sectorSeq++
 			acts = append(acts, fmt.Sprintf("a%d", w.sectorSeq))
 		}
-		bm := vhlib.Pick(r, 1000, 1000, 1000, 0, 500, 999, 1001)
-		proof := r.Intn(2)
-		if hasUpdate {
-			// an Update action with MerkleProof=true panics in core's DiffProofSize inside the host's
-			// rpcWrite (process crash; C14), never generated
-			proof = 0
+		for _, a := range acts {
+			if a[0] == 'a' {
+				var sd uint64
+				fmt.Sscan(a[1:], &sd)
+				g.appended = append(g.appended, sd)
+			}
 		}
+		bm := vhlib.Pick(r, 1000, 1000, 1000, 0, 500, 999, 1001)
+		// a Merkle proof request together with an update action must be refused (fix b659995)
+		proof := r.Intn(2)
 		w.dispatch(mkOp("write", "c", fmt.Sprint(c), "acts", "["+strings.Join(acts, ",")+"]", "ov", pickOver(r, g.tr, g.vrp(c)), "bm", fmt.Sprint(bm), "proof", fmt.Sprint(proof)))
 	case x < 31:
 		c := g.pickContract()
@@ -294,20 +310,41 @@ func (g *gen) stepV1() {
 	case x < 37:
 		c := g.pickContract()
 		n := g.sectors(c)
-		if n == 0 {
-			return
+		off, cnt := uint64(0), uint64(0)
+		switch {
+		case n == 0 || r.Chance(1, 6):
+			// ranges rpcSectorRoots must refuse before charging (fix e3519d3): empty, past the end, wrapping
+			switch r.Intn(5) {
+			case 0:
+				off, cnt = uint64(r.Intn(n+1)), 0
+			case 1:
+				off, cnt = uint64(n), 1
+			case 2:
+				off, cnt = 0, uint64(n+1)
+			case 3:
+				off, cnt = ^uint64(0), 2
+			default:
+				off, cnt = uint64(n+1+r.Intn(3)), uint64(r.Intn(2))
+			}
+		default:
+			off = uint64(r.Intn(n))
+			cnt = 1 + uint64(r.Intn(n-int(off)))
 		}
-		// NumRoots = 0 makes rpcSectorRoots panic in BuildSectorRangeProof (after committing the
-		// revision) and takes the host process down: a C14 matter, not generated here
-		off := r.Intn(n)
-		w.dispatch(mkOp("roots", "c", fmt.Sprint(c), "off", fmt.Sprint(off), "n", fmt.Sprint(1+r.Intn(n-off)), "ov", pickOver(r, g.tr, g.vrp(c))))
+		w.dispatch(mkOp("roots", "c", fmt.Sprint(c), "off", fmt.Sprint(off), "n", fmt.Sprint(cnt), "ov", pickOver(r, g.tr, g.vrp(c))))
 	case x < 40:
 		pay := g.payArgs()
 		w.dispatch(mkOp("pt", append(pay, "ov", g.over(pay))...))
 	case x < 50:
 		c := g.pickContract()
 		amt := vhlib.Pick(r, "0", "1", fmt.Sprint(1+r.Uint64()%100000), cs(sc.Div64(uint64(1+r.Intn(1000)))), cs(sc.Mul64(uint64(1+r.Intn(20)))))
-		w.dispatch(mkOp("fund", "c", fmt.Sprint(c), "a", fmt.Sprint(r.Intn(3)), "amt", amt))
+		sk := "0"
+		switch r.Intn(20) {
+		case 0:
+			amt = "-1" // pays less than the fund account cost: refused (fix d77a196)
+		case 1, 2:
+			sk = vhlib.Pick(r, "v1", "m1", "v"+fmt.Sprint(2+r.Uint64()%100000), "m"+fmt.Sprint(2+r.Uint64()%100000))
+		}
+		w.dispatch(mkOp("fund", "c", fmt.Sprint(c), "a", fmt.Sprint(r.Intn(3)), "amt", amt, "sk", sk))
 	case x < 54:
 		pay := g.payArgs()
 		w.dispatch(mkOp("bal", append(pay, "ov", g.over(pay))...))
